@@ -4,6 +4,7 @@ from props import _exprcheck as X
 ID = "C03"
 SECTIONS = ["ops"]
 LEAN_MODULES = ["QExPy.Props.C03"]
+LEMMA_MODULES = ["QExPy.Lemmas.Rules"]
 THEOREMS = ["QExPy.rule1", "QExPy.rule2", "QExPy.rule_pow_const", "QExPy.C03_diff_correct",
             "QExPy.C03_not_mem", "QExPy.C03_self", "QExPy.C03_pow_const_base",
             "QExPy.C03_log_base", "QExPy.C03_deg_eval", "QExPy.C03_deg_arg"]
@@ -20,7 +21,7 @@ TRUSTED = ["modelled not verified: numpy element-wise functions, CPython float a
 
 
 def correspond(ctx):
-    return X.run(ctx, "c03", ctx.n(300, 20000), gen_kwargs={"allow_repeated": True})
+    return X.run(ctx, "c03", ctx.n(300, 100000), gen_kwargs={"allow_repeated": True})
 
 
 def search(ctx, broken):
